@@ -327,6 +327,8 @@ struct Ctx<'a> {
     font: FontRef<'a>,
     /// compare the emitted GDEF with the model
     corr: bool,
+    /// the tables are well-formed: the preservation oracles apply
+    oracles: bool,
 }
 
 fn gdef_real_response(res: &Result<Result<Vec<u8>, klippa::SubsetError>, String>) -> Option<String> {
@@ -392,6 +394,10 @@ fn run_request(s: &mut Session, fc: &Ctx, req: &Req) {
     };
     let coords = sample_coords(axis_count(&fc.font));
     let Some(og) = og else { return };
+    if !fc.oracles {
+        s.count("gdef:hostile-requests");
+        return;
+    }
     s.count("gdef:requests");
     let sg = sub.gdef();
     // what the original says about the glyphs kept for layout
@@ -493,6 +499,689 @@ fn gdef_marksets_wellformed(g: &Gdef) -> bool {
     }
 }
 
+// ---------------------------------------------------------------------------------------------
+// synthetic fonts with hand-assembled GDEF tables
+// ---------------------------------------------------------------------------------------------
+
+#[derive(Clone, Debug)]
+enum CovS {
+    F1(Vec<u16>),
+    F2(Vec<(u16, u16, u16)>),
+}
+
+fn p16(o: &mut Vec<u8>, v: u16) {
+    o.extend_from_slice(&v.to_be_bytes());
+}
+
+fn cov_bytes(c: &CovS) -> Vec<u8> {
+    let mut o = vec![];
+    match c {
+        CovS::F1(gs) => {
+            p16(&mut o, 1);
+            p16(&mut o, gs.len() as u16);
+            for g in gs {
+                p16(&mut o, *g);
+            }
+        }
+        CovS::F2(rs) => {
+            p16(&mut o, 2);
+            p16(&mut o, rs.len() as u16);
+            for (a, b, c) in rs {
+                p16(&mut o, *a);
+                p16(&mut o, *b);
+                p16(&mut o, *c);
+            }
+        }
+    }
+    o
+}
+
+fn cov_glyphs(c: &CovS) -> Vec<u16> {
+    match c {
+        CovS::F1(gs) => gs.clone(),
+        CovS::F2(rs) => rs.iter().flat_map(|(a, b, _)| (*a..=*b)).collect(),
+    }
+}
+
+#[derive(Clone, Debug)]
+enum CdS {
+    F1(u16, Vec<u16>),
+    F2(Vec<(u16, u16, u16)>),
+}
+
+fn cd_bytes(c: &CdS) -> Vec<u8> {
+    let mut o = vec![];
+    match c {
+        CdS::F1(start, cs) => {
+            p16(&mut o, 1);
+            p16(&mut o, *start);
+            p16(&mut o, cs.len() as u16);
+            for c in cs {
+                p16(&mut o, *c);
+            }
+        }
+        CdS::F2(rs) => {
+            p16(&mut o, 2);
+            p16(&mut o, rs.len() as u16);
+            for (a, b, c) in rs {
+                p16(&mut o, *a);
+                p16(&mut o, *b);
+                p16(&mut o, *c);
+            }
+        }
+    }
+    o
+}
+
+#[derive(Clone, Debug)]
+enum CaretS {
+    F1(i16),
+    F2(u16),
+    /// coordinate, Device table bytes
+    F3Dev(i16, Vec<u8>),
+    /// coordinate, outer, inner
+    F3Var(i16, u16, u16),
+}
+
+#[derive(Clone, Debug)]
+struct StoreS {
+    axis_count: u16,
+    regions: Vec<Vec<(i16, i16, i16)>>,
+    /// (word_delta_count, region indexes, rows)
+    subs: Vec<(u16, Vec<u16>, Vec<Vec<i32>>)>,
+}
+
+#[derive(Clone, Debug, Default)]
+struct GdefS {
+    minor: u16,
+    glyph_class: Option<CdS>,
+    attach: Option<(CovS, Vec<Vec<u16>>)>,
+    lig: Option<(CovS, Vec<Vec<CaretS>>)>,
+    mark_attach: Option<CdS>,
+    mark_sets: Option<Vec<CovS>>,
+    store: Option<StoreS>,
+    /// identical sub-objects are stored once
+    share: bool,
+    /// the sub-tables are laid out in reverse order
+    reverse: bool,
+}
+
+/// offsets + children blob: `head` is the fixed part whose offset fields (at `slots`, `width` bytes each) point at
+/// `children[i]`; identical children are stored once when `share`
+fn with_children(mut head: Vec<u8>, slots: &[usize], width: usize, children: &[Vec<u8>], share: bool) -> Vec<u8> {
+    let mut placed: Vec<(Vec<u8>, usize)> = vec![];
+    let mut body: Vec<u8> = vec![];
+    let base = head.len();
+    for (slot, child) in slots.iter().zip(children) {
+        let off = match placed.iter().find(|(b, _)| share && b == child) {
+            Some((_, o)) => *o,
+            None => {
+                let o = base + body.len();
+                body.extend_from_slice(child);
+                placed.push((child.clone(), o));
+                o
+            }
+        };
+        if width == 2 {
+            head[*slot..*slot + 2].copy_from_slice(&(off as u16).to_be_bytes());
+        } else {
+            head[*slot..*slot + 4].copy_from_slice(&(off as u32).to_be_bytes());
+        }
+    }
+    head.extend_from_slice(&body);
+    head
+}
+
+fn caret_bytes(c: &CaretS) -> Vec<u8> {
+    let mut o = vec![];
+    match c {
+        CaretS::F1(v) => {
+            p16(&mut o, 1);
+            p16(&mut o, *v as u16);
+        }
+        CaretS::F2(p) => {
+            p16(&mut o, 2);
+            p16(&mut o, *p);
+        }
+        CaretS::F3Dev(v, d) => {
+            p16(&mut o, 3);
+            p16(&mut o, *v as u16);
+            p16(&mut o, 6);
+            o.extend_from_slice(d);
+        }
+        CaretS::F3Var(v, outer, inner) => {
+            p16(&mut o, 3);
+            p16(&mut o, *v as u16);
+            p16(&mut o, 6);
+            p16(&mut o, *outer);
+            p16(&mut o, *inner);
+            p16(&mut o, 0x8000);
+        }
+    }
+    o
+}
+
+fn store_bytes(st: &StoreS) -> Vec<u8> {
+    let mut rl = vec![];
+    p16(&mut rl, st.axis_count);
+    p16(&mut rl, st.regions.len() as u16);
+    for r in &st.regions {
+        for (a, b, c) in r {
+            p16(&mut rl, *a as u16);
+            p16(&mut rl, *b as u16);
+            p16(&mut rl, *c as u16);
+        }
+    }
+    let mut children = vec![rl];
+    for (wdc, ris, rows) in &st.subs {
+        let mut d = vec![];
+        p16(&mut d, rows.len() as u16);
+        p16(&mut d, *wdc);
+        p16(&mut d, ris.len() as u16);
+        for r in ris {
+            p16(&mut d, *r);
+        }
+        d.extend_from_slice(&super::hvar::encode_rows(*wdc, ris.len(), rows));
+        children.push(d);
+    }
+    let mut head = vec![];
+    p16(&mut head, 1);
+    head.extend_from_slice(&[0; 4]);
+    p16(&mut head, st.subs.len() as u16);
+    let mut slots = vec![2];
+    for i in 0..st.subs.len() {
+        slots.push(8 + 4 * i);
+        head.extend_from_slice(&[0; 4]);
+    }
+    with_children(head, &slots, 4, &children, false)
+}
+
+fn gdef_bytes(g: &GdefS) -> Vec<u8> {
+    let mut head = vec![];
+    p16(&mut head, 1);
+    p16(&mut head, g.minor);
+    head.extend_from_slice(&[0; 8]);
+    if g.minor >= 2 {
+        head.extend_from_slice(&[0; 2]);
+    }
+    if g.minor >= 3 {
+        head.extend_from_slice(&[0; 4]);
+    }
+    // (slot, width, blob)
+    let mut subs: Vec<(usize, usize, Vec<u8>)> = vec![];
+    if let Some(c) = &g.glyph_class {
+        subs.push((4, 2, cd_bytes(c)));
+    }
+    if let Some((cov, pts)) = &g.attach {
+        let mut h = vec![0, 0];
+        p16(&mut h, pts.len() as u16);
+        let mut slots = vec![0];
+        let mut children = vec![cov_bytes(cov)];
+        for (i, p) in pts.iter().enumerate() {
+            slots.push(4 + 2 * i);
+            h.extend_from_slice(&[0; 2]);
+            let mut b = vec![];
+            p16(&mut b, p.len() as u16);
+            for x in p {
+                p16(&mut b, *x);
+            }
+            children.push(b);
+        }
+        subs.push((6, 2, with_children(h, &slots, 2, &children, g.share)));
+    }
+    if let Some((cov, ligs)) = &g.lig {
+        let mut h = vec![0, 0];
+        p16(&mut h, ligs.len() as u16);
+        let mut slots = vec![0];
+        let mut children = vec![cov_bytes(cov)];
+        for (i, carets) in ligs.iter().enumerate() {
+            slots.push(4 + 2 * i);
+            h.extend_from_slice(&[0; 2]);
+            let mut lh = vec![];
+            p16(&mut lh, carets.len() as u16);
+            let mut ls = vec![];
+            for j in 0..carets.len() {
+                ls.push(2 + 2 * j);
+                lh.extend_from_slice(&[0; 2]);
+            }
+            let cb: Vec<Vec<u8>> = carets.iter().map(caret_bytes).collect();
+            children.push(with_children(lh, &ls, 2, &cb, g.share));
+        }
+        subs.push((8, 2, with_children(h, &slots, 2, &children, g.share)));
+    }
+    if let Some(c) = &g.mark_attach {
+        subs.push((10, 2, cd_bytes(c)));
+    }
+    if g.minor >= 2 {
+        if let Some(sets) = &g.mark_sets {
+            let mut h = vec![];
+            p16(&mut h, 1);
+            p16(&mut h, sets.len() as u16);
+            let mut slots = vec![];
+            for i in 0..sets.len() {
+                slots.push(4 + 4 * i);
+                h.extend_from_slice(&[0; 4]);
+            }
+            let children: Vec<Vec<u8>> = sets.iter().map(cov_bytes).collect();
+            subs.push((12, 2, with_children(h, &slots, 4, &children, g.share)));
+        }
+    }
+    if g.minor >= 3 {
+        if let Some(st) = &g.store {
+            subs.push((14, 4, store_bytes(st)));
+        }
+    }
+    if g.reverse {
+        subs.reverse();
+    }
+    for (slot, width, blob) in subs {
+        let off = head.len();
+        if width == 2 {
+            head[slot..slot + 2].copy_from_slice(&(off as u16).to_be_bytes());
+        } else {
+            head[slot..slot + 4].copy_from_slice(&(off as u32).to_be_bytes());
+        }
+        head.extend_from_slice(&blob);
+    }
+    head
+}
+
+fn fvar_bytes(axis_count: u16) -> Vec<u8> {
+    use write_fonts::tables::fvar;
+    use write_fonts::types::{Fixed, NameId};
+    let tags: [&[u8; 4]; 4] = [b"wght", b"wdth", b"opsz", b"slnt"];
+    let recs: Vec<fvar::VariationAxisRecord> = (0..axis_count as usize)
+        .map(|i| fvar::VariationAxisRecord::new(Tag::new(tags[i % 4]), Fixed::from_f64(100.0), Fixed::from_f64(400.0), Fixed::from_f64(900.0), 0, NameId::new(256 + i as u16)))
+        .collect();
+    let f = fvar::Fvar::new(fvar::AxisInstanceArrays::new(recs, vec![]));
+    write_fonts::dump_table(&f).expect("fvar")
+}
+
+/// a glyf font with `n` tiny glyphs (every glyph mapped from U+0100 + gid) plus the given raw tables
+fn syn_base(name: &str, n: usize, extra: Vec<([u8; 4], Vec<u8>)>) -> Vec<u8> {
+    let glyph = |i: usize| -> Vec<u8> {
+        let mut g = vec![0, 1, 0, 0, 0, 0, 0, 100, 0, 100, 0, 2, 0, 0];
+        g.extend_from_slice(&[0x37, 0x37, 0x37]);
+        g.extend_from_slice(&[10, 20, (i % 50) as u8 + 1, 5, 30, 7]);
+        g
+    };
+    let sf = Syn {
+        name: name.to_string(),
+        glyphs: (0..n).map(glyph).collect(),
+        adv: (0..n).map(|i| 500 + (i % 7) as u16).collect(),
+        lsb: (0..n).map(|i| (i % 9) as i16).collect(),
+        num_long: n,
+        cmap: (1..n).map(|g| (0x100 + g as u32, g as u32)).collect(),
+        long_loca: false,
+        align: 2,
+    };
+    let base = build_font(&sf);
+    let font = FontRef::new(&base).expect("base font");
+    let mut b = write_fonts::FontBuilder::new();
+    for (tag, data) in extra {
+        b.add_raw(Tag::new(&tag), data);
+    }
+    b.copy_missing_tables(font);
+    b.build()
+}
+
+/// ascending sample of glyph ids below `n`
+fn rand_glyphs(r: &mut Rng, n: u16, style: u64) -> Vec<u16> {
+    let mut v = vec![];
+    match style {
+        // runs
+        0 => {
+            let mut g = r.below(4) as u16;
+            while g < n {
+                let len = *r.pick(&[1u16, 1, 2, 3, 4, 5, 8, 12]);
+                for x in g..(g + len).min(n) {
+                    v.push(x);
+                }
+                g += len + r.range(1, 9) as u16;
+            }
+        }
+        // sparse
+        1 => {
+            for g in 0..n {
+                if r.chance(1, 4) {
+                    v.push(g);
+                }
+            }
+        }
+        // dense
+        2 => {
+            for g in 0..n {
+                if !r.chance(1, 9) {
+                    v.push(g);
+                }
+            }
+        }
+        // few
+        _ => {
+            for _ in 0..r.range(1, 5) {
+                v.push(r.below(n as u64) as u16);
+            }
+            v.sort();
+            v.dedup();
+        }
+    }
+    v
+}
+
+fn runs_of(gs: &[u16]) -> Vec<(u16, u16, u16)> {
+    let mut out: Vec<(u16, u16, u16)> = vec![];
+    for (i, g) in gs.iter().enumerate() {
+        match out.last_mut() {
+            Some(l) if l.1 + 1 == *g => l.1 = *g,
+            _ => out.push((*g, *g, i as u16)),
+        }
+    }
+    out
+}
+
+/// a coverage table over glyphs below `n`; `hostile` = 0 well-formed, else one of the malformations
+fn rand_cov(r: &mut Rng, n: u16, hostile: u64) -> CovS {
+    let style = r.below(4);
+    let gs = rand_glyphs(r, n, style);
+    let as_f2 = r.chance(1, 2);
+    match hostile {
+        0 => {
+            if as_f2 {
+                CovS::F2(runs_of(&gs))
+            } else {
+                CovS::F1(gs)
+            }
+        }
+        // unsorted glyph array
+        1 => {
+            let mut g = gs;
+            r.shuffle(&mut g);
+            CovS::F1(g)
+        }
+        // duplicate glyphs
+        2 => {
+            let mut g = vec![];
+            for x in gs {
+                g.push(x);
+                if r.chance(1, 3) {
+                    g.push(x);
+                }
+            }
+            CovS::F1(g)
+        }
+        // wrong start coverage indices
+        3 => CovS::F2(runs_of(&gs).into_iter().map(|(a, b, c)| (a, b, if r.chance(1, 2) { c } else { r.below(40) as u16 })).collect()),
+        // overlapping / unsorted / inverted ranges
+        4 => {
+            let mut rs = runs_of(&gs);
+            if rs.len() > 1 && r.chance(1, 2) {
+                r.shuffle(&mut rs);
+            }
+            for x in rs.iter_mut() {
+                if r.chance(1, 3) {
+                    x.1 = x.1.saturating_add(r.range(1, 6) as u16);
+                }
+                if r.chance(1, 8) {
+                    std::mem::swap(&mut x.0, &mut x.1);
+                }
+            }
+            CovS::F2(rs)
+        }
+        // glyphs beyond numGlyphs
+        _ => {
+            let mut g = gs;
+            for _ in 0..r.range(1, 4) {
+                g.push(n + r.below(300) as u16);
+            }
+            g.sort();
+            g.dedup();
+            if as_f2 {
+                CovS::F2(runs_of(&g))
+            } else {
+                CovS::F1(g)
+            }
+        }
+    }
+}
+
+/// a class definition over glyphs below `n` with classes 0..=maxc
+fn rand_cd(r: &mut Rng, n: u16, maxc: u16, hostile: u64) -> CdS {
+    let style = r.below(4);
+    let gs = rand_glyphs(r, n, style);
+    let class_of = |r: &mut Rng| if r.chance(1, 7) { 0 } else { r.range(1, maxc as i64) as u16 };
+    // (start, end, class) runs with run-wise classes
+    let mut rs: Vec<(u16, u16, u16)> = vec![];
+    for (a, b, _) in runs_of(&gs) {
+        let mut s = a;
+        while s <= b {
+            let e = (s + r.below(4) as u16).min(b);
+            rs.push((s, e, class_of(r)));
+            s = e + 1;
+        }
+    }
+    match hostile {
+        0 => {
+            if r.chance(1, 2) || rs.is_empty() {
+                CdS::F2(rs)
+            } else {
+                let start = rs[0].0;
+                let end = rs.last().unwrap().1;
+                let mut cs = vec![0u16; (end - start + 1) as usize];
+                for (a, b, c) in &rs {
+                    for g in *a..=*b {
+                        cs[(g - start) as usize] = *c;
+                    }
+                }
+                CdS::F1(start, cs)
+            }
+        }
+        // unsorted / overlapping / inverted records
+        1 => {
+            if rs.len() > 1 && r.chance(1, 2) {
+                r.shuffle(&mut rs);
+            }
+            for x in rs.iter_mut() {
+                if r.chance(1, 3) {
+                    x.1 = x.1.saturating_add(r.range(1, 6) as u16);
+                }
+                if r.chance(1, 8) {
+                    std::mem::swap(&mut x.0, &mut x.1);
+                }
+            }
+            CdS::F2(rs)
+        }
+        // beyond numGlyphs
+        2 => {
+            if r.chance(1, 2) {
+                rs.push((n + 2, n + 40, 3));
+                CdS::F2(rs)
+            } else {
+                let start = n.saturating_sub(5);
+                CdS::F1(start, (0..30).map(|_| class_of(r)).collect())
+            }
+        }
+        // extreme values
+        _ => {
+            if r.chance(1, 2) {
+                CdS::F2(vec![(0, 3, 0xFFFF), (n - 1, 0xFFFF, 2)])
+            } else {
+                CdS::F1(0xFFF0, (0..16).map(|_| class_of(r)).collect())
+            }
+        }
+    }
+}
+
+fn rand_device(r: &mut Rng) -> Vec<u8> {
+    let start = r.range(8, 14) as u16;
+    let end = start + r.below(9) as u16;
+    let fmt = r.range(1, 3) as u16;
+    let per = [8u16, 4, 2][fmt as usize - 1];
+    let words = (end - start + 1).div_ceil(per);
+    let mut o = vec![];
+    p16(&mut o, start);
+    p16(&mut o, end);
+    p16(&mut o, fmt);
+    for _ in 0..words {
+        p16(&mut o, r.below(65536) as u16);
+    }
+    o
+}
+
+fn rand_store(r: &mut Rng) -> StoreS {
+    let axis_count = r.range(1, 3) as u16;
+    let nreg = r.range(1, 6) as usize;
+    let f = |v: f32| F2Dot14::from_f32(v).to_bits();
+    let regions: Vec<Vec<(i16, i16, i16)>> = (0..nreg)
+        .map(|_| {
+            (0..axis_count)
+                .map(|_| match r.below(4) {
+                    0 => (f(0.0), f(1.0), f(1.0)),
+                    1 => (f(-1.0), f(-1.0), f(0.0)),
+                    2 => (f(0.0), f(0.5), f(1.0)),
+                    _ => (f(0.0), f(0.0), f(0.0)),
+                })
+                .collect()
+        })
+        .collect();
+    let nsubs = r.range(1, 4) as usize;
+    let subs = (0..nsubs)
+        .map(|_| {
+            let ric = r.range(1, nreg as i64) as usize;
+            let mut ris: Vec<u16> = (0..nreg as u16).collect();
+            r.shuffle(&mut ris);
+            ris.truncate(ric);
+            let wc = r.below(ric as u64 + 1) as u16;
+            let long = r.chance(1, 6);
+            let wdc = wc | if long { 0x8000 } else { 0 };
+            let nrows = r.range(1, 7) as usize;
+            let rows = (0..nrows)
+                .map(|_| {
+                    (0..ric)
+                        .map(|c| {
+                            if r.chance(1, 4) {
+                                0
+                            } else if (c as u16) < wc {
+                                if long {
+                                    r.range(-100000, 100000) as i32
+                                } else {
+                                    r.range(-3000, 3000) as i32
+                                }
+                            } else if long {
+                                r.range(-3000, 3000) as i32
+                            } else {
+                                r.range(-128, 127) as i32
+                            }
+                        })
+                        .collect()
+                })
+                .collect();
+            (wdc, ris, rows)
+        })
+        .collect();
+    StoreS { axis_count, regions, subs }
+}
+
+struct SynFont {
+    label: String,
+    data: Vec<u8>,
+    /// every table is well-formed: the preservation oracles apply
+    wf: bool,
+    n: u16,
+}
+
+fn syn_gdef_font(r: &mut Rng, id: u64) -> SynFont {
+    let n = *r.pick(&[12u16, 30, 60, 130]);
+    // 0: everything well-formed; otherwise hostile pieces are mixed in
+    let hostile = id % 3 == 2;
+    let h = |r: &mut Rng, k: u64| if hostile && r.chance(1, 2) { r.range(1, k as i64) as u64 } else { 0 };
+    let minor = *r.pick(&[0u16, 0, 2, 2, 3, 3, 3]);
+    let mut g = GdefS { minor, share: r.chance(1, 2), reverse: r.chance(1, 3), ..Default::default() };
+    if r.chance(4, 5) {
+        let hh = h(r, 3);
+        g.glyph_class = Some(rand_cd(r, n, 4, hh));
+    }
+    if r.chance(2, 3) {
+        let hh = h(r, 3);
+        g.mark_attach = Some(rand_cd(r, n, 6, hh));
+    }
+    if r.chance(2, 3) {
+        let hh = h(r, 5);
+        let cov = rand_cov(r, n, hh);
+        let cnt = cov_glyphs(&cov).len();
+        let cnt = if hostile && r.chance(1, 4) { cnt.saturating_sub(1) } else { cnt };
+        let pool: Vec<Vec<u16>> = (0..3).map(|_| (0..r.below(4)).map(|_| r.below(40) as u16).collect()).collect();
+        let pts = (0..cnt).map(|_| if r.chance(1, 2) { r.pick(&pool).clone() } else { (0..r.below(5)).map(|_| r.below(90) as u16).collect() }).collect();
+        g.attach = Some((cov, pts));
+    }
+    if minor >= 3 && r.chance(5, 6) {
+        g.store = Some(rand_store(r));
+    }
+    if r.chance(3, 4) {
+        let hh = h(r, 5);
+        let cov = rand_cov(r, n, hh);
+        let cnt = cov_glyphs(&cov).len();
+        let st = g.store.clone();
+        let mut caret = |r: &mut Rng| match r.below(if minor >= 3 { 5 } else { 4 }) {
+            0 => CaretS::F1(r.range(-500, 1500) as i16),
+            1 => CaretS::F2(r.below(60) as u16),
+            2 | 3 => CaretS::F3Dev(r.range(-500, 1500) as i16, rand_device(r)),
+            _ => match &st {
+                Some(st) => {
+                    let outer = r.below(st.subs.len() as u64) as usize;
+                    let rows = st.subs[outer].2.len() as u64;
+                    let (o, i) = if hostile && r.chance(1, 10) { (st.subs.len() as u16 + 1, 0) } else { (outer as u16, r.below(rows + if hostile { 2 } else { 0 }) as u16) };
+                    CaretS::F3Var(r.range(-500, 1500) as i16, o, i)
+                }
+                None => CaretS::F3Var(7, 0, r.below(3) as u16),
+            },
+        };
+        let pool: Vec<Vec<CaretS>> = (0..2).map(|_| (0..r.range(1, 3)).map(|_| caret(r)).collect()).collect();
+        let ligs = (0..cnt)
+            .map(|_| {
+                if r.chance(1, 3) {
+                    r.pick(&pool).clone()
+                } else if r.chance(1, 12) {
+                    vec![]
+                } else {
+                    (0..r.range(1, 4)).map(|_| caret(r)).collect()
+                }
+            })
+            .collect();
+        g.lig = Some((cov, ligs));
+    }
+    if minor >= 2 && r.chance(5, 6) {
+        let k = r.range(1, 5) as usize;
+        let pool: Vec<CovS> = (0..2)
+            .map(|_| {
+                let hh = h(r, 5);
+                rand_cov(r, n, hh)
+            })
+            .collect();
+        let sets = (0..k)
+            .map(|_| {
+                if r.chance(1, 3) {
+                    r.pick(&pool).clone()
+                } else if r.chance(1, 5) {
+                    // a set that rarely survives
+                    CovS::F1(vec![n - 1])
+                } else {
+                    let hh = h(r, 5);
+                    rand_cov(r, n, hh)
+                }
+            })
+            .collect();
+        g.mark_sets = Some(sets);
+    }
+    let mut extra = vec![(*b"GDEF", gdef_bytes(&g))];
+    if let Some(st) = &g.store {
+        extra.push((*b"fvar", fvar_bytes(st.axis_count)));
+    }
+    let label = format!("syn:gdef#{id}");
+    // a VariationIndex without a variation store is malformed (klippa then drops the GDEF table)
+    let dangling = g.store.is_none() && g.lig.as_ref().map(|l| l.1.iter().flatten().any(|c| matches!(c, CaretS::F3Var(..)))).unwrap_or(false);
+    SynFont { data: syn_base(&label, n as usize, extra), label, wf: !hostile && !dangling, n }
+}
+
 fn corpus_fonts() -> Vec<(String, Vec<u8>)> {
     let mut out = vec![];
     for dir in ["/repo/font-test-data/test_data/ttf", "/repo/klippa/test-data/fonts"] {
@@ -545,8 +1234,20 @@ fn rand_request(r: &mut Rng, n: u32, cps: &[u32]) -> Req {
 
 pub fn run(cfg: &Config, s: &mut Session, r: &mut Rng) {
     let th = cfg.thorough();
-    let _ = (build_font, |_: &Syn| ());
     let _ = FontData::new(&[]);
+    let nsyn = if th { 400 } else { 60 };
+    for id in 0..nsyn {
+        let sf = syn_gdef_font(r, id);
+        let Ok(font) = FontRef::new(&sf.data) else { continue };
+        let cps: Vec<u32> = (1..sf.n as u32).map(|g| 0x100 + g).collect();
+        let fc = Ctx { label: sf.label.clone(), font, corr: true, oracles: sf.wf };
+        s.count(if sf.wf { "syn:well-formed" } else { "syn:hostile" });
+        for _ in 0..(if th { 8 } else { 4 }) {
+            let req = rand_request(r, sf.n as u32, &cps);
+            run_request(s, &fc, &req);
+        }
+        run_request(s, &fc, &Req { gids: (0..sf.n as u32).collect(), unicodes: vec![], flags: 0 });
+    }
     for (label, data) in corpus_fonts() {
         let Ok(font) = FontRef::new(&data) else { continue };
         let n = font.maxp().map(|m| m.num_glyphs() as u32).unwrap_or(0);
@@ -554,7 +1255,7 @@ pub fn run(cfg: &Config, s: &mut Session, r: &mut Rng) {
             continue;
         }
         let cps: Vec<u32> = super::cmap_pairs(&font).iter().map(|p| p.0).collect();
-        let fc = Ctx { label, font, corr: true };
+        let fc = Ctx { label, font, corr: true, oracles: true };
         let nreq = if th { 40 } else { 6 };
         for _ in 0..nreq {
             let req = rand_request(r, n, &cps);
